@@ -753,23 +753,25 @@ class Interp:
         return ("ok",)
 
     def kill_fibers(self, everything=False):
-        """end of a run: fibers on the aborted call chain die with it (their threads are released and the fiber is
-        marked dead: the model does not predict what calling one of them later does); a fiber that is cleanly
-        suspended stays parked, so that a later run on this interpreter can resume it"""
+        """end of a run: the fiber that failed and every fiber up the call chain that was waiting for it end up
+        finished (their threads are released); a fiber that is cleanly suspended stays parked, so that a later run on
+        this interpreter can resume it"""
         self.terminated = True
         keep, victims = [], []
         for fb in self.all_fibers:
             alive = fb.thread is not None and fb.thread is not threading.current_thread() and fb.thread.is_alive()
             if not alive:
                 if fb.state != "finished":
-                    fb.dead = True
+                    fb.state = "finished"
+                    fb.caller = None
                 continue
             if not everything and fb.state == "suspended" and fb.caller is None:
                 keep.append(fb)
             else:
                 victims.append(fb)
         for fb in victims:
-            fb.dead = True
+            fb.state = "finished"
+            fb.caller = None
             fb.wake.release()
         for fb in victims:
             fb.thread.join(timeout=5)
